@@ -1758,11 +1758,20 @@ def div(ir, instr, src1):
     do_except.append(m2_expr.ExprAssign(ir.IRDst, loc_next_expr))
     blk_except = IRBlock(ir.loc_db, loc_except, [AssignBlock(do_except, instr)])
 
+    # The quotient has to fit in the destination, or the division faults (#DE)
+    loc_check, loc_check_expr = ir.gen_loc_key_and_expr(ir.IRDst.size)
+    overflow = c_d[size:]
+    do_check = [m2_expr.ExprAssign(
+        ir.IRDst,
+        m2_expr.ExprCond(overflow, loc_except_expr, loc_div_expr)
+    )]
+    blk_check = IRBlock(ir.loc_db, loc_check, [AssignBlock(do_check, instr)])
+
     e = []
     e.append(m2_expr.ExprAssign(ir.IRDst,
-                             m2_expr.ExprCond(src1, loc_div_expr, loc_except_expr)))
+                             m2_expr.ExprCond(src1, loc_check_expr, loc_except_expr)))
 
-    return e, [blk_div, blk_except]
+    return e, [blk_check, blk_div, blk_except]
 
 
 # XXX size to do; eflag
@@ -1805,11 +1814,20 @@ def idiv(ir, instr, src1):
     do_except.append(m2_expr.ExprAssign(ir.IRDst, loc_next_expr))
     blk_except = IRBlock(ir.loc_db, loc_except, [AssignBlock(do_except, instr)])
 
+    # The quotient has to fit in the destination, or the division faults (#DE)
+    loc_check, loc_check_expr = ir.gen_loc_key_and_expr(ir.IRDst.size)
+    overflow = c_d ^ c_d[:size].signExtend(src2.size)
+    do_check = [m2_expr.ExprAssign(
+        ir.IRDst,
+        m2_expr.ExprCond(overflow, loc_except_expr, loc_div_expr)
+    )]
+    blk_check = IRBlock(ir.loc_db, loc_check, [AssignBlock(do_check, instr)])
+
     e = []
     e.append(m2_expr.ExprAssign(ir.IRDst,
-                             m2_expr.ExprCond(src1, loc_div_expr, loc_except_expr)))
+                             m2_expr.ExprCond(src1, loc_check_expr, loc_except_expr)))
 
-    return e, [blk_div, blk_except]
+    return e, [blk_check, blk_div, blk_except]
 
 
 # XXX size to do; eflag
